@@ -14,8 +14,8 @@ def plan(tier):
              Cond("c01_jws.py", "general_json_kf2", "main", T * 2, "same through a callable"),
              Cond("c02_jwe.py", "general_json", "main", T * 2, "JWE general JSON: per-recipient kid resolves per-recipient key"),
              Cond("c11_jwk.py", "witness", "witness", 120)]
-    p3, n3 = gen.specialise("c03_roundtrip.py", [("roundtrip", [(a,) for a in ((0, 3, 9, 13) if q else range(15))])], "c14_gen3.py")
-    p4, n4 = gen.specialise("c04_roundtrip.py", [("roundtrip", [(a, e) for a, e in (((3, 3), (7, 0), (1, 3)) if q else [(a, 3) for a in range(21)])])], "c14_gen4.py")
+    p3, n3 = gen.specialise("c03_roundtrip.py", [("roundtrip_keys", [(a,) for a in ((0, 3, 9, 13) if q else range(15))])], "c14_gen3.py")
+    p4, n4 = gen.specialise("c04_roundtrip.py", [("roundtrip_options", [(a, e) for a, e in (((3, 3), (7, 0), (1, 3)) if q else [(a, 3) for a in range(21)])])], "c14_gen4.py")
     conds += [Cond(p3, n, "main", T, "JWS producing: explicit kid uses that key; without kid a key of the algorithm's type is picked (symbolic index), its kid is written, the public set verifies (%s)" % n) for n in n3]
     conds += [Cond(p4, n, "main", T, "JWE producing with a key set (%s)" % n) for n in n4]
     meta = {
